@@ -1,7 +1,7 @@
 SPECIFICATION Spec
 CONSTANTS
   Cap = 2
-  MaxId = 5
+  MaxId = 4
   Defects = {}
 VIEW View
 INVARIANTS Accounting CountMatches Bounded
